@@ -76,6 +76,8 @@ def gen_case(rng):
             # an older snapshot of another agent in the same directory: [file-name stem, seconds older]
             # the same agent / version written once before with ANOTHER state (a re-snapshot without a version bump)
             "prewrite_same_version": rng.random() < 0.4, "booted_first": rng.random() < 0.3,
+            # write order "this agent, the other agent, this agent again" with the files' own modification times
+            "sibling_between": rng.random() < 0.5,
             "graph_cfg": rng.choice([None, None, {"decay": {"epsilon_prune": 0.2, "floor": 0.1}}, {"decay": {"epsilon_prune": 0.01}}, {"enabled": True, "update": {"clamp_min": -0.3, "clamp_max": 0.3}}]),
             "sde": rng.choice([None, None, "1700000000", "1700000000.25", "2023-11-14", "", "-5", "1e9"]),
             "older_sibling": rng.choice([None, ["zz-older", 0.5], ["0-older", 0.5], ["zz-older", 0.004], ["zz-older", 3.0], ["~older", 0.25]])}
@@ -217,6 +219,18 @@ def _check_case_inner(case, sess, d, cfg, lo, hi):
         gel0 = copy.deepcopy(gel)
         sess.evaluations += 1
         older = None
+        between = bool(case.get("sibling_between") and case.get("older_sibling") and case.get("prewrite_same_version"))
+        if between:
+            st0 = WStore()
+            st0.w[("node", "earlier-content", "weight")] = 0.125
+            try:
+                S.write_snapshot(ctx, {"graph": {"nodes": {}, "edges": {"p→q": {"src": "p", "dst": "q", "weight": 0.25, "rel": "coact"}}, "meta": {}}, "version_etag": case["version"], "store": st0},
+                                 case["version"], applied=0, deltas=[])
+                sess.count("prewrites_same_agent_and_version")
+            except Exception as ex:
+                sess.violation("write-raises:" + type(ex).__name__, case, repr(ex)[:200])
+                return
+            time.sleep(0.03)
         if case.get("older_sibling"):
             try:
                 older = S.write_snapshot(NS(turn_id=0, agent_id=case["older_sibling"][0], cfg=cfg, config=cfg), {"graph": {"nodes": {}, "edges": {}, "meta": {}}, "version_etag": "older-sibling", "store": WStore()},
@@ -224,7 +238,9 @@ def _check_case_inner(case, sess, d, cfg, lo, hi):
             except Exception as ex:
                 sess.violation("write-raises:" + type(ex).__name__, case, repr(ex)[:200])
                 return
-        if case.get("prewrite_same_version"):
+        if between:
+            time.sleep(0.03)
+        if case.get("prewrite_same_version") and not between:
             st0 = WStore()
             st0.w[("node", "earlier-content", "weight")] = 0.125
             try:
@@ -288,7 +304,14 @@ def _check_case_inner(case, sess, d, cfg, lo, hi):
             sess.violation("snapshot-file-name", case, os.path.basename(path))
         # (3) decoys, all newer than the body
         now = time.time()
-        if older:
+        if older and between:
+            # written in the order: this agent, the sibling, this agent again (30 ms apart).  The file written last is the
+            # latest one: discovery goes by modification time, so the rewrite must carry its own time, not the replaced file's
+            sess.count("rewrites_after_a_sibling_was_written(natural mtimes)")
+            if os.path.getmtime(path) <= os.path.getmtime(older):
+                sess.violation("rewritten-snapshot-not-newer-than-the-sibling-written-before-it", case,
+                               {"mtime_rewritten": os.path.getmtime(path), "mtime_sibling": os.path.getmtime(older)})
+        elif older:
             # pin the two real snapshots' mtimes: the sibling was written `gap` seconds before the body (sub-second gaps
             # land both in one whole second: x.75 and x.75 - gap)
             tb = float(int(now)) - 10 + 0.75  # in the past: later rewrites of the body stay the newest file
@@ -455,7 +478,8 @@ def main(tier: str, seed: int):
     sess.require("discovery_calls", 300)
     sess.require("auto_writer_files_checked:delta", 100)
     sess.require("prewrites_same_agent_and_version", 60)
-    sess.require("older_sibling_within_the_same_second", 60)
+    sess.require("older_sibling_within_the_same_second", 30)
+    sess.require("rewrites_after_a_sibling_was_written(natural mtimes)", 20)
     sess.require("real_temp_leftovers_planted", 300)
     sess.require("killed_write_leftovers", 300)
     sess.finish()
